@@ -112,6 +112,7 @@ let handle = function
      | "q_set_search" -> r1 (q_set_search d u (l 0))
      | "q_set_hash" -> r1 (q_set_hash d u (l 0))
      | _ -> failwith "unknown op")
+  | ["known01"; base; input] -> show_n (known_c01 (parse_opt parse_url_tok base) (parse_list input))
   | ["wf"; u] -> show_bool (wf_b (parse_url_tok u))
   | ["pos"; dbg; u] ->
     let d = dbg_of dbg and u = parse_url_tok u in
